@@ -714,6 +714,7 @@ func TestC12CnameGraph(t *testing.T) {
 			}
 			cur = nx
 		}
+		swapQType := rapid.IntRange(0, 3).Draw(t, "echoed_question_of_other_type") == 0
 		c12Srv.SetRespond(func(q dnsfx.Query) (int, []byte) {
 			sub := func(s string) string {
 				if s == "$Q" {
@@ -736,7 +737,15 @@ func TestC12CnameGraph(t *testing.T) {
 				}
 				ans = append(ans, a)
 			}
-			pkt, err := dnsfx.Packet(q, 0, ans)
+			eq := q
+			if swapQType {
+				// the echoed question (and a record to go with it) is of another type than the
+				// one asked: an answer for a question nobody put
+				eq.Type = map[uint16]uint16{65: 1, 1: 65, 28: 65}[q.Type]
+				extra := dnsfx.AnsRec{Owner: q.Name, Type: eq.Type, Rec: dnsfx.ZRec{TTL: 60, IP: net.IP{192, 0, 2, 99}, HTTPS: dns.HTTPS{Priority: 1, ALPN: []string{"h2"}}}}
+				ans = append([]dnsfx.AnsRec{extra}, ans...)
+			}
+			pkt, err := dnsfx.Packet(eq, 0, ans)
 			if err != nil {
 				pkt, _ = dnsfx.Packet(q, 2, nil)
 			}
@@ -778,6 +787,9 @@ func TestC12CnameGraph(t *testing.T) {
 			ev.Violation(t, "C12", rp, "Resolve sent %d queries for one name", n)
 		}
 		cl := []string{"cname_graph"}
+		if swapQType {
+			cl = append(cl, "echoed_question_of_other_type")
+		}
 		if cyc {
 			cl = append(cl, "cname_cycle_from_qname")
 		}
